@@ -114,6 +114,19 @@ def auto_models(j, skip=()):
             text += '/* assumed: std::vector<const void*> / std::deque as finite sequences (seqmodel.h) */\n%s %s(%s) { %s }\n' % (s['ret'], n, s['params'], sqm)
             used.append('std::vector<const void*> = sequence of pointer values, at() checked; std::deque = sequence of never-moving elements (harness/seqmodel.h)')
             continue
+        vm = None
+        mi = re.search(r'ILm(\d+)E', n)
+        if re.match(r'std::variant<.*>::index$', q) and len(ps) == 1:
+            vm = 'return ((unsigned char*)%s)[8];' % ps[0][1]
+        elif q == 'std::get' and len(ps) == 1 and 'variant' in s.get('type', '') and mi:
+            vm = ('if (((unsigned char*)%s)[8] != %s) { __ipr_throw(IPR_EXC_std__bad_variant_access); }  return (%s)%s;' % (ps[0][1], mi.group(1), s['ret'], ps[0][1]))
+        elif re.match(r'std::variant<.*>::emplace$', q) and mi:
+            vm = '*(void**)%s = 0; ((unsigned char*)%s)[8] = %s; return (%s)%s;' % (ps[0][1], ps[0][1], mi.group(1), s['ret'], ps[0][1])
+        if vm:
+            text += ('#ifndef IPR_EXC_std__bad_variant_access\n#define IPR_EXC_std__bad_variant_access 0x7ffffff2      /* even: NOT derived from std::logic_error */\n#endif\n'
+                     '/* assumed: std::variant of pointer alternatives = (pointer value, index of the active alternative); a value-initialised variant holds alternative 0 = null */\n%s %s(%s) { %s }\n' % (s['ret'], n, s['params'], vm))
+            used.append('std::variant<A*, B*> = (pointer, active index); get<I> of the wrong alternative raises bad_variant_access (not a logic error)')
+            continue
         if q == 'std::char_traits<char8_t>::length' and len(ps) == 1:
             text += '/* assumed: char_traits::length = number of characters before the terminating NUL (strings of the library are short literals) */\n'
             text += '%s %s(%s) { unsigned long n = 0; while (n < 64 && %s[n] != 0) n++; __CPROVER_assert(n < 64, "char_traits::length model bound"); return n; }\n' % (s['ret'], n, s['params'], ps[0][1])
